@@ -482,10 +482,17 @@ class Engine:
         m, f = self.find_func(name[1:])
         if f is not None or any(name[1:] in mm.declared for mm in self.mods):
             return Ptr(('func', name[1:]), 0)
-        gm, g = self.find_global(name)
-        if g is None:
-            return Ptr(('extern', name), 0)
-        key = 'G' + name
+        # module-private globals (string literals @.str.N ...) belong to the module of the code that names them: two translation units
+        # have different literals under one name
+        own = mod.globals.get(name) if (mod is not None and name.startswith('@.')) else None
+        if own is not None and own[1] is not None:
+            gm, g = mod, own
+            key = 'G%s#%d' % (name, self.mods.index(mod) if mod in self.mods else id(mod))
+        else:
+            gm, g = self.find_global(name)
+            if g is None:
+                return Ptr(('extern', name), 0)
+            key = 'G' + name
         if key not in st.mem.o:
             self.materialize_global(st, key, gm, g)
         o = st.mem.o[key]
